@@ -22,13 +22,16 @@ const (
 	SStatus     Step = "status" // c.SetStatus(201): selects a status without committing it
 	// SRedispAbort: the handler re-dispatches the request (HandleContext) to a route whose only middleware (id 100)
 	// probes, aborts, probes; its main handler (id 101) must therefore never start, nor any later handler out here
-	SRedispAbort Step = "redispatch-to-aborting-route"
-	SAbortSt200  Step = "abort-status-200" // c.AbortWithStatus(200): must replace a pending non-200 status too
-	SSilent      Step = "silent"           // first step of a handler that records no events (the built-in 404 responder)
-	SDefault404  Step = "default-404"      // http.NotFound: status 404 unless committed, then the body
-	SWriteStr    Step = "write-string"     // io.WriteString(c.Resp, "x"): same as SWrite for the specification
-	SAddErr      Step = "add-error"        // Context.AddError: recorded for the OnError hook, invisible to the chain
-	SFlush       Step = "flush"            // c.Resp.(http.Flusher).Flush(): commits the response like a write, with the status selected so far
+	SRedispAbort  Step = "redispatch-to-aborting-route"
+	SAbortSt200   Step = "abort-status-200" // c.AbortWithStatus(200): must replace a pending non-200 status too
+	SSilent       Step = "silent"           // first step of a handler that records no events (the built-in 404 responder)
+	SReplaceChain Step = "set-handlers"     // c.SetHandlers(other chain) by an aborted handler: the abort stands, nothing of it starts
+	SDefault404   Step = "default-404"      // http.NotFound: status 404 unless committed, then the body
+	SDefault405   Step = "default-405"      // the built-in not-allowed responder for a method other than OPTIONS: http.Error with 405
+	SDefault200   Step = "default-options"  // the built-in responder for OPTIONS: selects status 200, writes nothing
+	SWriteStr     Step = "write-string"     // io.WriteString(c.Resp, "x"): same as SWrite for the specification
+	SAddErr       Step = "add-error"        // Context.AddError: recorded for the OnError hook, invisible to the chain
+	SFlush        Step = "flush"            // c.Resp.(http.Flusher).Flush(): commits the response like a write, with the status selected so far
 )
 
 // Behaviour is the body of one handler: a sequence of steps.
@@ -105,12 +108,22 @@ func RunChain(bs []Behaviour, abortCode int) ChainResult {
 					pendingStatus = 200
 				}
 				aborted = true
-			case SSilent, SAddErr:
+			case SSilent, SAddErr, SReplaceChain:
 			case SDefault404:
 				if !res.Committed {
 					pendingStatus = 404
 					res.Committed = true
 					res.Status = 404
+				}
+			case SDefault405:
+				if !res.Committed {
+					pendingStatus = 405
+					res.Committed = true
+					res.Status = 405
+				}
+			case SDefault200:
+				if !res.Committed {
+					pendingStatus = 200
 				}
 			case SRedispAbort:
 				res.Events = append(res.Events, Event{Kind: "enter", H: 100}, Event{Kind: "probe", H: 100, Aborted: false},
